@@ -74,15 +74,18 @@ FMax(a, b) == IF FLe(b, a) THEN a ELSE b
 \* to residue-coded ones)
 FOfQ(q) == FDiv(FI(q[1]), FI(q[2]))
 \* Records of the symbolic lane (harness element type Sym): a ring element is logged as {"p": [[coefficient,
-\* monomial], ...]} and the record's field `shp` says which fields hold ring elements and how deeply they are
-\* nested (0 scalar, 1 vector, 2 matrix).  DecodeTrace turns them into VekPoly values before the ordinary
-\* actions of a trace specification are evaluated, so the same actions validate sampled and symbolic records.
+\* monomial], ...]} and the record's field `shp` describes where they are: [t |-> "P"] a polynomial,
+\* [t |-> "L", e |-> <<..>>] a list with one descriptor per element, [t |-> "R", f |-> [field |-> ..]] a record
+\* (fields that hold no polynomial are not listed), [t |-> "K"] anything else.  DecodeTrace turns them into
+\* VekPoly values before the ordinary actions of a trace specification are evaluated, so the same actions
+\* validate sampled and symbolic records.
 PolyOfJson(x) == {<<x.p[i][2], x.p[i][1]>> : i \in DOMAIN x.p}
-RECURSIVE DecodeDepth(_, _)
-DecodeDepth(d, x) == IF d = 0 THEN PolyOfJson(x) ELSE [i \in DOMAIN x |-> DecodeDepth(d - 1, x[i])]
-DecodeRec(e) == IF "shp" \in DOMAIN e
-                THEN [f \in DOMAIN e |-> IF f \in DOMAIN e.shp THEN DecodeDepth(e.shp[f], e[f]) ELSE e[f]]
-                ELSE e
+RECURSIVE DecodeBy(_, _)
+DecodeBy(D, x) == CASE D.t = "P" -> PolyOfJson(x)
+                    [] D.t = "K" -> x
+                    [] D.t = "L" -> [i \in DOMAIN x |-> DecodeBy(D.e[i], x[i])]
+                    [] D.t = "R" -> [f \in DOMAIN x |-> IF f \in DOMAIN D.f THEN DecodeBy(D.f[f], x[f]) ELSE x[f]]
+DecodeRec(e) == IF "shp" \in DOMAIN e THEN DecodeBy(e.shp, e) ELSE e
 DecodeTrace(recs) == IF P = PPoly THEN [i \in DOMAIN recs |-> DecodeRec(recs[i])] ELSE recs
 \* the elements of the ring when it is finite
 FSet == 0 .. (P - 1)
